@@ -27,9 +27,10 @@ def t_cap(chk, ix):
     rules_capture.check_log_level_roundtrip(chk, ix)
     rules_capture.check_fresh_buffers(chk, ix)
     rules_capture.check_captured_switches(chk, ix)
+    rules_capture.check_flush_keeps_records(chk, ix)
 
 
 def run(chk, ix, tier):
-    run_parallel(chk, [(t_cap, ()), (T.t_step, (("K1", "K5"),)), (T.t_scenario, (("K3",),))])
-    for r, n in (("K1", 8), ("K2", 40), ("K3", 1), ("K4", 9), ("K5", 8), ("K6", 1), ("K7", 3), ("K8", 8)):
+    run_parallel(chk, [(t_cap, ()), (T.t_step, (("K1", "K5"),)), (T.t_scenario, (("K3",),)), (T.t_run_model, (("K10",),))])
+    for r, n in (("K1", 8), ("K2", 40), ("K3", 1), ("K4", 9), ("K5", 8), ("K6", 1), ("K7", 3), ("K8", 8), ("K9", 3), ("K10", 1)):
         chk.require_instances(r, n)
